@@ -713,7 +713,9 @@ def s1_order_independent_classification(ctx):
             fn = _pub(ctx, SURF, "SurfaceMesh", qual) if fld is None else _priv(ctx, "C01-S1", SURF, "SurfaceMesh", qual, field=fld)
         except _Missing:
             continue
-        x = q.summarise(ctx.repo, SURF, "SurfaceMesh", fn, recv=MESH_RECV)
+        # the lazily built tables are not part of the classification: their builders (and the rotational sort they run) are not entered
+        never = hr.builders(ctx.repo, SURF, CONN) | ({_find_sorter(ctx).name} if _find_sorter(ctx) is not None else set())
+        x = q.summarise(ctx.repo, SURF, "SurfaceMesh", fn, recv=MESH_RECV, policy=sx.Policy(never=never))
         bad = None
         terms = [t for _, t in hr.all_terms(x)] + ([x.ret] if x.ret is not None else [])
         for t in terms:
